@@ -141,6 +141,26 @@ static void quiet_cancel(int trials){ _dispatch_verif_yield_cb=q_ycb;
     if(atomic_load(&ch)!=1) fail("the cancel handler of a read source cancelled from another thread on a descriptor that stays quiet was not invoked within 2 s: trial/events/runs",t,atomic_load(&evs),atomic_load(&ch));
     atomic_store(&q_ds,(void*)0); dispatch_release(ds); dispatch_release(q); close(p[0]); close(p[1]); }
   _dispatch_verif_yield_cb=0; }
+// a source that has a cancellation handler and NO event handler (a legal shape: the handler may be installed later, or never), of
+// every kind, cancelled from another thread while its serial target queue is busy: the cancellation handler still runs exactly once,
+// on the target queue (not on the manager thread, alongside the block the target queue is running)
+static void cancel_only(int kind){ struct S *s=calloc(1,sizeof *s); s->kind=kind; s->scen=40; s->q=dispatch_queue_create("tq",NULL); dispatch_queue_set_specific(s->q,&qkey,s,NULL);
+  if(pipe(s->p)){}
+  switch(kind){ case 0: s->ds=dispatch_source_create(DISPATCH_SOURCE_TYPE_DATA_ADD,0,0,s->q); break;
+    case 1: s->ds=dispatch_source_create(DISPATCH_SOURCE_TYPE_TIMER,0,0,s->q); dispatch_source_set_timer(s->ds,dispatch_time(DISPATCH_TIME_NOW,30ll*1000000000ll),DISPATCH_TIME_FOREVER,0); break;
+    case 2: s->ds=dispatch_source_create(DISPATCH_SOURCE_TYPE_READ,(uintptr_t)s->p[0],0,s->q); break;
+    case 3: s->ds=dispatch_source_create(DISPATCH_SOURCE_TYPE_WRITE,(uintptr_t)s->p[1],0,s->q); break;
+    default: s->ds=dispatch_source_create(DISPATCH_SOURCE_TYPE_SIGNAL,SIGUSR2,0,s->q); break; }
+  dispatch_source_set_cancel_handler_f(s->ds,ch); dispatch_set_context(s->ds,s); dispatch_activate(s->ds); usleep(3000);
+  __block _Atomic int busy=0, overl=0; _Atomic int *bp=&busy, *op=&overl;
+  dispatch_async(s->q,^{ atomic_store(bp,1); for(int w=0; w<400; w++){ usleep(50); if(atomic_load(&s->cancel_runs)) atomic_store(op,1); } atomic_store(bp,2); });
+  for(int w=0; w<20000 && !atomic_load(&busy); w++) usleep(50);
+  dispatch_source_cancel(s->ds); if(rnd()%2) dispatch_source_cancel(s->ds);
+  for(int w=0; w<5000 && !atomic_load(&s->cancel_runs); w++) usleep(1000);
+  for(int w=0; w<2000 && atomic_load(&busy)!=2; w++) usleep(100);
+  if(atomic_load(&overl)) fail("the cancel handler of a source without event handler ran while its serial target queue was running another block: kind",kind,0,0);
+  if(atomic_load(&s->cancel_runs)!=1) fail("the cancel handler of a source without event handler did not run exactly once (5 s): kind/runs",kind,atomic_load(&s->cancel_runs),0);
+  dispatch_release(s->ds); dispatch_sync(s->q,^{}); dispatch_release(s->q); close(s->p[0]); close(s->p[1]); }
 int main(int argc,char**argv){ seed=argc>1?strtoull(argv[1],0,0):1; int rounds=argc>2?atoi(argv[2]):3; signal(SIGUSR2,SIG_IGN); signal(SIGPIPE,SIG_IGN); long n=0;
   trbuf=malloc(TRMAX); _dispatch_verif_source_cb=srccb;
   det_phase=1; for(int v=0; v<16 && !viol; v++){ det(v); n++; } for(int v=0; v<16 && !viol; v++){ det_timer(v); n++; } det_phase=0;
@@ -149,6 +169,7 @@ int main(int argc,char**argv){ seed=argc>1?strtoull(argv[1],0,0):1; int rounds=a
     if(kind==3 && (scen==5||scen==6)) {}  // a write source on an empty pipe fires continuously: fine
     one(kind,scen); n++; }
   _dispatch_verif_source_cb=0;
+  for(int r=0;r<rounds && !viol;r++) for(int kind=0;kind<5 && !viol;kind++){ cancel_only(kind); n++; }
   if(!viol){ quiet_cancel(rounds*150); n+=rounds*150; }
   if(viol) printf("ORACLE VIOL seed=%llu %s\n",(unsigned long long)seed,vmsg); else printf("ORACLE ok items=%ld\n",n);
   fwrite(trbuf,1,trlen,stdout);
